@@ -228,6 +228,16 @@ func c02Run(c *core.Ctx, i int) {
 	p := c.State.(*srcPool)
 	r := c.Rng
 	if i%16 == 15 { // stream 4: targeted families
+		switch r.Intn(4) {
+		case 2:
+			c.Cover("stream", "shadowing")
+			soundRun(c, gen.Print(shadowProgram(r), gen.RandomLayout(rand.New(rand.NewSource(r.Int63())))), "shadowing family")
+			return
+		case 3:
+			c.Cover("stream", "loop-state")
+			soundRun(c, gen.Print(loopStateProgram(r), nil), "loop state family")
+			return
+		}
 		if r.Intn(2) == 0 {
 			c.Cover("stream", "any-equality")
 			soundRun(c, gen.Print(anyEqProgram(r), gen.RandomLayout(rand.New(rand.NewSource(r.Int63())))), "any equality family")
